@@ -211,6 +211,8 @@ func runHistory(prop string, r *hx.Rand, h *History, w *world, first *CallObs, a
 			} else if r.Chance(1, 25) && op.Kind == "msg" {
 				op.Kind = "tamper"
 				op.Restart = true
+			} else if r.Chance(1, 5) {
+				op.Restart = true // the host stored the session and reads it back before this resume
 			}
 		}
 		obs, s2 := w.resume(s, &op)
@@ -313,6 +315,7 @@ func replayInput(path string) (*History, []Op, error) {
 			Kind     string  `json:"kind"`
 			Text     string  `json:"text"`
 			Fault    string  `json:"fault"`
+			Restart  bool    `json:"restart"`
 			CFLAfter *Assets `json:"cfl_after"`
 		} `json:"ops"`
 	}
@@ -326,7 +329,7 @@ func replayInput(path string) (*History, []Op, error) {
 	ops := []Op{}
 	for _, o := range hin.Ops {
 		op := Op{Kind: o.Kind, Text: o.Text, Fault: o.Fault, Assets: o.CFLAfter}
-		if o.Kind == "tamper" {
+		if o.Kind == "tamper" || o.Restart {
 			op.Restart = true
 		}
 		ops = append(ops, op)
@@ -550,6 +553,9 @@ func historyJSON(h *History) map[string]any {
 		if op.Text != "" {
 			m["text"] = op.Text
 		}
+		if op.Restart {
+			m["restart"] = true
+		}
 		if op.Fault != "" {
 			m["fault"] = op.Fault
 			m["assets_after"] = json.RawMessage(op.Assets.JSON())
@@ -699,6 +705,68 @@ func corpus(prop string) []corpusCase {
 				Ops: []Op{{Kind: "msg", Text: "a", Assets: mk(true), Fault: fmt.Sprintf("flow %d edited, no longer valid (dangling-destination)", which)}, {Kind: "msg", Text: "b"}}})
 		}
 	}
+	// --- one deterministic input for every seeded change / repaired defect that needs a particular shape ---
+	// three nested runs, the deepest fails (enters a missing flow): the failure bubbles through every ancestor
+	// (seeded C01_nested_failure_not_bubbled)
+	{
+		mid := plain(201, enter(3, false))
+		mid.Exits[0].Dest = 202
+		top := plain(101, enter(2, false))
+		top.Exits[0].Dest = 102
+		out = append(out, corpusCase{Assets: &Assets{Opts: std, Flows: []*Flow{
+			{ID: 1, Nodes: []*Node{top, plain(102, Action{Kind: "send_msg", Text: "t"})}},
+			{ID: 2, Nodes: []*Node{mid, plain(202, Action{Kind: "send_msg", Text: "m"})}},
+			{ID: 3, Nodes: []*Node{plain(301, enter(9, false))}}}},
+			Trigger: Trigger{Kind: "manual", Flow: 1}, Ops: []Op{}})
+	}
+	// a TERMINAL enter_flow inside a sub-flow: Top enters Middle, Middle terminal-enters Bottom, Bottom waits, then ends
+	// (seeded C01_terminal_enter_leaves_grandparent_active_with_exited_on)
+	{
+		top := plain(101, enter(2, false))
+		top.Exits[0].Dest = 102
+		bottom := waitNode(301)
+		out = append(out, corpusCase{Assets: &Assets{Opts: std, Flows: []*Flow{
+			{ID: 1, Nodes: []*Node{top, plain(102, Action{Kind: "send_msg", Text: "t"})}},
+			{ID: 2, Nodes: []*Node{plain(201, enter(3, true))}},
+			{ID: 3, Nodes: []*Node{bottom}}}},
+			Trigger: Trigger{Kind: "manual", Flow: 1}, Ops: []Op{{Kind: "msg", Text: "a"}, {Kind: "msg", Text: "b"}}})
+	}
+	// steps reached through enter_flow rather than through exits (seeded C05_steps_counted_by_segments): a node that
+	// enters a child and loops back to itself under a step limit of 6, and a chain of six single-node flows that only
+	// enter each other under a step limit of 3
+	{
+		o := std
+		o.MaxSteps = 6
+		loop := plain(101, enter(2, false))
+		loop.Exits[0].Dest = 101
+		out = append(out, corpusCase{Assets: &Assets{Opts: o, Flows: []*Flow{
+			{ID: 1, Nodes: []*Node{loop}},
+			{ID: 2, Nodes: []*Node{plain(201, Action{Kind: "send_msg", Text: "c"})}}}},
+			Trigger: Trigger{Kind: "manual", Flow: 1}, Ops: []Op{}})
+		o3 := std
+		o3.MaxSteps = 3
+		var chain []*Flow
+		for fl := 1; fl <= 6; fl++ {
+			if fl < 6 {
+				chain = append(chain, &Flow{ID: fl, Nodes: []*Node{plain(fl*100+1, enter(fl+1, fl%2 == 0))}})
+			} else {
+				chain = append(chain, &Flow{ID: fl, Nodes: []*Node{plain(fl*100+1, Action{Kind: "send_msg", Text: "end"})}})
+			}
+		}
+		out = append(out, corpusCase{Assets: &Assets{Opts: o3, Flows: chain}, Trigger: Trigger{Kind: "manual", Flow: 1}, Ops: []Op{}})
+	}
+	if prop == "C10" || prop == "C05" {
+		// a voice flow whose dial wait leads back to itself, resume limit 2, four dial resumes (seeded
+		// C10_dial_waits_not_counted_for_resume_limit): dial waits count against MaxResumesPerSession
+		o := std
+		o.MaxResumes = 2
+		dw := waitNode(101)
+		dw.Router.Wait.Dial = true
+		dw.Exits[0].Dest = 101
+		out = append(out, corpusCase{Assets: &Assets{Opts: o, Flows: []*Flow{{ID: 1, Type: 2, Nodes: []*Node{dw}}}},
+			Trigger: Trigger{Kind: "manual", Flow: 1},
+			Ops:     []Op{{Kind: "dial", Text: "answered"}, {Kind: "dial", Text: "busy"}, {Kind: "dial", Text: "answered"}, {Kind: "dial", Text: "no_answer"}}})
+	}
 	if prop == "C10" || prop == "C01" {
 		// a session paused inside a sub-flow; between sprints the node the PARENT run is located at (its enter_flow node)
 		// is deleted / loses nothing else; the child's wait accepts the resume, the child completes and the engine
@@ -738,6 +806,14 @@ func corpus(prop string) []corpusCase {
 		out = append(out, corpusCase{Assets: &Assets{Opts: o, Flows: []*Flow{
 			{ID: 1, Nodes: []*Node{plain(101, Action{Kind: "set_run_result", Name: "r0", Text: "abc"}), waitNode(102)}}}},
 			Trigger: Trigger{Kind: "manual", Flow: 1}, Ops: []Op{{Kind: "msg", Text: "zz"}}})
+	}
+	if prop == "C10" {
+		// a session started by a flow_action trigger (it has a parent run summary) is stored and read back; the first call
+		// on the restored session is a resume its wait rejects: nothing the session shows may change (hunt2 C10 f2)
+		out = append(out, corpusCase{Assets: &Assets{Opts: std, Flows: []*Flow{
+			{ID: 1, Nodes: []*Node{plain(100, Action{Kind: "send_msg", Text: "a"}), waitNode(101)}}}},
+			Trigger: Trigger{Kind: "flow_action", Flow: 1},
+			Ops:     []Op{{Kind: "dial", Restart: true}, {Kind: "msg", Text: "a"}}})
 	}
 	if prop == "C10" {
 		// a rejected resume on a session that carries an input (msg trigger, then an accepted msg resume)
